@@ -109,7 +109,15 @@ func (d *Decoder) Decode(bts []byte) (interface{}, error) {
 }
 
 //ReadObject read new object from reader
-func (d *Decoder) ReadObject() (interface{}, error) {
+func (d *Decoder) ReadObject() (obj interface{}, err error) {
+	// input that does not fit the registered types (a wire int for a string
+	// field, a map key that cannot be hashed, a type map entry of the wrong
+	// kind, ...) surfaces as a panic of package reflect: report it as an error
+	defer func() {
+		if r := recover(); r != nil {
+			obj, err = nil, newCodecError("ReadObject", "invalid data: %v", r)
+		}
+	}()
 	return EnsureInterface(d.ReadData())
 }
 
